@@ -241,6 +241,14 @@ class C07(core.Check):
         mid = vmul(Fr(1, 2), vadd(A, B))
         if a == b:  # collapsed edge: any payload, the edge has zero length
             dp = [Fr(1), Fr(0), Fr(0)]
+        # the bow must not be (nearly) parallel to the chord — side data of independently re-indexed faces can run
+        # along a diagonal of the cell: a parallel bow would give an Angle with a zero axis (not a valid input), an
+        # unintended collinear Arc, an Origin on the chord
+        for _ in range(100):
+            n_ = vcross(w, dp)
+            if vdot(n_, n_) * 16 >= vdot(dp, dp) * vdot(w, w):  # sin of the angle between them >= 1/4
+                break
+            w = self._bow(rng)
         if kind == "arc":
             p = vadd(A, vmul(Fr(3, 8), dp))
             shallow = not collinear and rng.random() < 0.12
